@@ -320,6 +320,51 @@ def invalid_state(o):
     return None
 
 
+SHARED_ROUTES = ['fromstring', 'token', 'bits-prop-text', 'bits-prop-object', 'bitsN-prop-object', 'ctor-from-immutable', 'pack-bits', 'iadd-to-empty',
+                 'prepend-to-empty', 'copy-of-immutable', 'radd-empty-text', 'bits-kw']
+
+
+def make_shared(cls, bits, route, pos):
+    """(receiver, witnesses, text): a mutable object made along a route that starts from a text or an immutable object"""
+    tok = (('0x' + format(int(bits, 2), f'0{len(bits) // 4}x')) if len(bits) % 8 == 0 else '0b' + bits) if bits else ''
+    w1 = Bits(tok)
+    w2 = ConstBitStream(tok)
+    if route == 'fromstring':
+        r = cls.fromstring(tok)
+    elif route == 'token':
+        r = cls(tok)
+    elif route == 'bits-prop-text':
+        r = cls()
+        r.bits = tok
+    elif route == 'bits-prop-object':
+        r = cls()
+        r.bits = w1
+    elif route == 'bitsN-prop-object':
+        r = cls()
+        setattr(r, f'bits{len(bits)}', w2) if bits else setattr(r, 'bits', w2)
+    elif route == 'ctor-from-immutable':
+        r = cls(w2)
+    elif route == 'pack-bits':
+        r = bitstring.pack('bits', w1)
+        r = r if cls is BitStream else cls(r)
+    elif route == 'iadd-to-empty':
+        r = cls()
+        r += w1
+    elif route == 'prepend-to-empty':
+        r = cls()
+        r.prepend(tok if len(bits) % 2 else w2)
+    elif route == 'copy-of-immutable':
+        import copy as _copy
+        r = cls(_copy.copy(w1))
+    elif route == 'radd-empty-text':
+        r = tok + cls()
+    else:
+        r = cls(bits=w1)
+    if isinstance(r, ConstBitStream):
+        r.pos = min(pos, len(r))
+    return r, [w1, w2], tok
+
+
 def make_receiver(rng, rspec, tmpdir):
     kind = rspec[0]
     if kind in CLASSES:
@@ -381,6 +426,16 @@ def judge(ctx, case):
                     ctx.mismatch(f'C20|{oc}', case, f'{rname}.ctor: {recv!s:.100}')
                 return
             watched = []          # immutable bitstrings met earlier in this sequence: they must never change later either
+            shared_text = None
+            if case.get('made') and rname in ('BitArray', 'BitStream'):
+                k0, made = call(lambda: make_shared(CLASSES[rname], rspec[1], case['made'], rspec[2] if len(rspec) > 2 else 0))
+                if k0 == 'ok' and B(made[0]) == rspec[1]:
+                    recv, wit, shared_text = made
+                    watched = [(w, snap(w)) for w in wit]
+                    ctx.op('receiver-made:' + case['made'])
+                elif k0 == 'ok' or outcome_class('exc', made, 'ctor'):
+                    ctx.mismatch(f'C20|receiver-made:{case["made"]}|wrong-value-or-internal-error', case, f'{made!r:.100}')
+                    return
             for st in case['calls']:
                 name, aspecs, kspecs = st
                 size_now = len(recv.data) if isinstance(recv, Array) else len(recv) if isinstance(recv, Bits) else 0
@@ -460,6 +515,12 @@ def judge(ctx, case):
                 else:
                     ctx.ok((where, argc, 'ok' if kind == 'ok' else type(val).__name__), any(adversarial(a) for a in aspecs))
                 ctx.state(where, kind)
+            if shared_text is not None:
+                k1, again = call(lambda: (B(Bits(shared_text)), B(BitArray(shared_text))))
+                if k1 != 'ok' or again != (rspec[1], rspec[1]):
+                    ctx.mismatch(f'C20|receiver-made:{case["made"]}|text-means-something-else-after-the-calls', case, f'{shared_text!r:.40} -> {again!r:.100}')
+                else:
+                    ctx.ok(('receiver-made', case['made'], rname), True)
     finally:
         for fh in opened:
             try:
@@ -622,7 +683,12 @@ def gen_case(ctx):
                 v = next((sp[1] for sp in list(aspecs) + list(kspecs.values()) if sp and sp[0] == 'int'), 1)
                 if isinstance(v, int) and v > 1:
                     L *= v
-    return {'receiver': rspec, 'calls': calls, 'lsb0': rng.random() < 0.3, 'oba': rng.random() < 0.1}
+    case = {'receiver': rspec, 'calls': calls, 'lsb0': rng.random() < 0.3, 'oba': rng.random() < 0.1}
+    if rk in ('BitArray', 'BitStream') and rng.random() < 0.35:
+        # the mutable receiver is made from something an immutable object holds as well (the same text, or the object itself):
+        # whatever the calls do to the receiver, the immutable witnesses keep their value and the text keeps its meaning
+        case['made'] = rng.choice(SHARED_ROUTES)
+    return case
 
 
 # ---- module-level entry points: constructors, pack, Dtype(), Array() -----------------------------------------
